@@ -184,6 +184,47 @@ def case(spec):
                             must_fail(res, dfsbin, tpath, [], ['dump-sector', str(drive), str(t), str(x)],
                                       'read-past-eof', tfiles)
             res.sample = {'kind': kind, 'container': os.path.basename(path), 'surface': s0.describe()}
+        elif kind == 'nocat':
+            # a surface that holds no recognisable catalogue (blank second side of a dsd/ddd, an MMB slot marked
+            # present whose image is not a DFS disc) is still attached: its sectors are at the documented offsets
+            if idx % 2 == 0:
+                spt = 10      # (a .ddd always has two candidate geometries, 16 and 18 sectors per track)
+                # 80 tracks: the catalogue of side 0 alone then decides the geometry (with several candidate
+                # geometries the prober insists on a catalogue on the second side and refuses the image)
+                s0 = dm.gen_surface(rng, variant='acorn', spt=spt, sid=0, maxlen_sectors=10, tracks=80,
+                                    total=rng.choice([800, 640, 401]) if spt == 10 else rng.choice([1023, 721, 900]))
+                nonce = rng.getrandbits(16)
+                blank = b''.join(dm.fingerprint(nonce, 1, l) for l in range(s0.nsectors))
+                if rng.random() < 0.5:
+                    blank = b'\xe5' * 512 + blank[512:]
+                a = s0.image()
+                tb = spt * 256
+                raw = b''.join(a[t * tb:(t + 1) * tb] + blank[t * tb:(t + 1) * tb] for t in range(s0.tracks))
+                path = os.path.join(tmp, 'n.%s' % dm.ext_for(s0, True))
+                write_file(path, raw)
+                files = {os.path.basename(path): raw}
+                for (t, x) in sample_addresses(rng, s0.tracks, spt, 6):
+                    lba = t * spt + x
+                    probe(res, dfsbin, path, [], 2, t, x, blank[lba * 256:(lba + 1) * 256],
+                          doc_offset('inter', 1, s0.tracks, spt, t, x), 'nocat-dsd-side1', files)
+                    res.sigs.append('nocat|dsd|%d|%d|%d' % (spt, t, x))
+                res.seen('containers', 'dsd-with-blank-side')
+            else:
+                base = rng.getrandbits(15)
+                k = rng.choice([0, 1, 3, 200, 510])
+                img_k = b''.join(dm.fingerprint(base, k % 16, l) for l in range(800))
+                s_ok = dm.gen_surface(rng, variant='acorn', spt=10, total=800, tracks=80, nfiles=1, maxlen_sectors=2)
+                other = (k + 1) % 511
+                path = os.path.join(tmp, 'n.mmb')
+                dm.mmb_file(path, {k: (rng.choice([0x00, 0x0F]), img_k), other: (0x0F, s_ok.image())})
+                files = {'slots.txt': ('slot %d present without catalogue' % k).encode()}
+                for (t, x) in sample_addresses(rng, 80, 10, 5):
+                    lba = t * 10 + x
+                    probe(res, dfsbin, path, ['--drive-first'], k, t, x, img_k[lba * 256:(lba + 1) * 256],
+                          doc_offset('mmb', 0, 80, 10, t, x, slot=k), 'nocat-mmb-slot', files)
+                    res.sigs.append('nocat|mmb|%d|%d|%d' % (k, t, x))
+                res.seen('containers', 'mmb-slot-without-catalogue')
+            res.sample = {'kind': kind}
         elif kind == 'twosided':
             # two-sided non-interleaved .ssd/.sdd: side 0 then side 1 (doc/dfs.1: "1 or 2 sides")
             spt = rng.choice([10, 18])
@@ -265,7 +306,8 @@ def case(spec):
 def main(tier, seed, scale=1.0):
     BIN['san'] = build.ensure('san')
     q = tier == 'quick'
-    counts = {'single': 30 if q else 500, 'inter': 30 if q else 500, 'twosided': 4 if q else 40, 'mmb': 10 if q else 120}
+    counts = {'single': 30 if q else 500, 'inter': 30 if q else 500, 'twosided': 8 if q else 80, 'mmb': 10 if q else 120,
+              'nocat': 12 if q else 160}
     specs = []
     for k, n in counts.items():
         specs += [(seed, k, i, tier) for i in range(max(1, int(n * scale)))]
